@@ -17,7 +17,7 @@ use crate::executor::SqlExecutor;
 
 type Rec = (i64, Option<String>, Option<String>, Option<i64>);
 
-const HOSTILE: [(&str, &str); 22] = [
+const HOSTILE: [(&str, &str); 27] = [
     ("plain", "alice"),
     ("plain", "bob smith"),
     ("comma", "a,b"),
@@ -26,6 +26,11 @@ const HOSTILE: [(&str, &str); 22] = [
     ("double-quote", "\""),
     ("newline", "line1\nline2"),
     ("carriage-return", "cr\r\nlf"),
+    ("carriage-return", "abc\r"),
+    ("carriage-return", "\r"),
+    ("carriage-return", "\rlead"),
+    ("newline", "\n"),
+    ("newline", "tail\n"),
     ("apostrophe", "O'Brien"),
     ("sql-fragment", "'); DROP TABLE other; --"),
     ("sql-fragment", "x'), (99, 'injected', 'row', 1); --"),
@@ -91,7 +96,7 @@ fn read_table(x: &mut SqlExecutor, t: &str) -> Option<Vec<Rec>> {
                 SqlValue::Null => None,
                 o => Some(format!("{:?}", o)),
             };
-            (i(&r.values[0]).unwrap_or(i64::MIN), s(&r.values[1]), s(&r.values[2]), i(&r.values[3]))
+            (i(&r.values[0]).unwrap_or(i64::MIN), s(&r.values[1]), s(&r.values[3]), i(&r.values[2]))
         })
         .collect();
     v.sort();
@@ -111,7 +116,7 @@ fn copy(x: &mut SqlExecutor, line: &str) -> Result<Result<(), String>, String> {
     })
 }
 
-const SCHEMA: &str = "(id INTEGER, s VARCHAR(60), t VARCHAR(60), n INTEGER)";
+const SCHEMA: &str = "(id INTEGER, s VARCHAR(60), n INTEGER, t VARCHAR(60))";
 
 fn setup(records: &[Rec]) -> SqlExecutor {
     let mut x = SqlExecutor::new(None).expect("executor");
@@ -122,7 +127,7 @@ fn setup(records: &[Rec]) -> SqlExecutor {
     let tb = x.verif_db().get_table_mut("SRC").expect("src table");
     for (id, s, t, n) in records {
         let sv = |v: &Option<String>| v.clone().map_or(SqlValue::Null, SqlValue::Varchar);
-        tb.insert(vibesql_storage::Row::new(vec![SqlValue::Integer(*id), sv(s), sv(t), n.map_or(SqlValue::Null, SqlValue::Integer)])).expect("insert src");
+        tb.insert(vibesql_storage::Row::new(vec![SqlValue::Integer(*id), sv(s), n.map_or(SqlValue::Null, SqlValue::Integer), sv(t)])).expect("insert src");
     }
     x
 }
@@ -202,7 +207,7 @@ pub fn run(ctx: &mut Ctx) {
             // (B) import of a file written by the harness
             label = format!("import-{}", fmt);
             let text = if fmt == "csv" {
-                let mut cols = vec!["id", "s", "t", "n"];
+                let mut cols = vec!["id", "s", "n", "t"];
                 let shuffled = family == 2 && rng.chance(1, 2);
                 if shuffled {
                     cols = vec!["n", "t", "id", "s"];
